@@ -249,8 +249,8 @@ macro "inv_cases" : tactic => `(tactic| (constructor <;> first | (inv_auto; done
 
 /-- destructure an invariant into its named fields -/
 macro "inv_obtain" h:ident : tactic => `(tactic|
-  obtain ⟨kindC, kindF, lockOk, frWait, freshOk, freshVer, freshVerT, freshNode, wFreeTaken, preOk, postOk, ownOk, rsmTaken,
-    freeTaken, pubNode, waiting, parked, listOk, scanOk, prevOk, oScanOk, oNoneOk, aUnlockOk, aNextOk, aResumeOk, aFreeOk,
+  obtain ⟨kindC, kindF, lockOk, frWait, freshOk, freshUniq, freshVer, freshVerT, freshNode, wFreeTaken, preOk, postOk, ownOk, rsmTaken,
+    freeTaken, pubNode, waiting, parked, listOk, scanOk, prevOk, placed, oScanOk, oNoneOk, aUnlockOk, aNextOk, aResumeOk, aFreeOk,
     noRead, cTakeOk, allocUsed, noBad⟩ := $h)
 
 end Babylon.Coro
